@@ -112,3 +112,48 @@ Lemma conforms_b_ok : forall t r, conforms_b t r = true -> conforms t r.
 Proof.
   intros t r H l Hl. unfold conforms_b in H. rewrite forallb_forall in H. apply mem_path_In. apply H. exact Hl.
 Qed.
+(** NECESSITY of the obligation: a view of shard memory in a field the program does not copy is still in the result
+    after copyFiles, and reading the result once the shards are unmapped faults. *)
+Lemma read_ok_or_panic : forall sh hp s, (exists d, read sh hp s = Ok d) \/ (exists w, read sh hp s = Panic w).
+Proof.
+  intros sh hp s. unfold read, sub_bytes.
+  destruct (b_reg s) as [id|a].
+  - destruct (sh id) as [d|]; [|right; eexists; reflexivity].
+    destruct (b_off s + b_len s <=? List.length d); [left|right]; eexists; reflexivity.
+  - destruct (nth_error hp a) as [d|]; [|right; eexists; reflexivity].
+    destruct (b_off s + b_len s <=? List.length d); [left|right]; eexists; reflexivity.
+Qed.
+
+Lemma copy_result_keeps_uncopied : forall copied r sh hp hp' r' l,
+  In l r -> mem_path (fst l) copied = false -> copy_result sh hp copied r = Ok (hp', r') -> In l r'.
+Proof.
+  intros copied r. induction r as [|l0 r IH]; intros sh hp hp' r' l Hin Hnc Hc; [destruct Hin|].
+  simpl in Hc.
+  destruct (copy_leaf sh hp copied l0) as [x| |] eqn:Hl; simpl in Hc; try discriminate.
+  destruct (copy_result sh (fst x) copied r) as [y| |] eqn:Hr; simpl in Hc; try discriminate.
+  inversion Hc; subst hp' r'; clear Hc.
+  destruct Hin as [Heq|Hin].
+  - subst l0. unfold copy_leaf in Hl. rewrite Hnc in Hl. inversion Hl; subst x. left. reflexivity.
+  - right. destruct y as [hp2 r2]. simpl. apply (IH sh (fst x) hp2 r2 l Hin Hnc Hr).
+Qed.
+
+Lemma unmapped_view_faults : forall hp r p id off len,
+  In (p, mkBS (RShard id) off len) r -> exists w, read_all (fun _ => None) hp r = Panic w.
+Proof.
+  intros hp r. induction r as [|[p0 s0] r IH]; intros p id off len Hin; [destruct Hin|].
+  simpl. destruct Hin as [Heq|Hin].
+  - inversion Heq; subst p0 s0. unfold read. simpl. eexists. reflexivity.
+  - destruct (read_ok_or_panic (fun _ => None) hp s0) as [[d Hd]|[w Hw]].
+    + rewrite Hd. simpl. destruct (IH p id off len Hin) as [w Hw]. rewrite Hw. simpl. eexists. reflexivity.
+    + rewrite Hw. simpl. eexists. reflexivity.
+Qed.
+
+Theorem uncopied_view_faults : forall copied r sh hp hp' r' p id off len,
+  In (p, mkBS (RShard id) off len) r -> mem_path p copied = false ->
+  copy_result sh hp copied r = Ok (hp', r') ->
+  In (p, mkBS (RShard id) off len) r' /\ exists w, read_all (fun _ => None) hp' r' = Panic w.
+Proof.
+  intros copied r sh hp hp' r' p id off len Hin Hnc Hc.
+  assert (Hin' : In (p, mkBS (RShard id) off len) r') by (apply (copy_result_keeps_uncopied copied r sh hp hp' r' _ Hin Hnc Hc)).
+  split; [exact Hin'|]. apply (unmapped_view_faults hp' r' p id off len Hin').
+Qed.
